@@ -5,6 +5,7 @@ package interp
 
 import (
 	"fmt"
+	"math/big"
 	"go/token"
 	"go/types"
 	"math"
@@ -131,6 +132,12 @@ func init() {
 		"(*math/rand.Rand).Float64":    func(fr *frame, args []value) value { return fr.i.ps.randFloat() },
 		"math/rand.ExpFloat64":         func(fr *frame, args []value) value { return fr.i.ps.randExp() },
 		"(*math/rand.Rand).ExpFloat64": func(fr *frame, args []value) value { return fr.i.ps.randExp() },
+		"(*os.File).WriteString": func(fr *frame, args []value) value {
+			// in-memory sink (cmd harnesses): the text is kept for sxOutput()
+			fr.i.ps.out = append(fr.i.ps.out, strElems(args[1])...)
+			return tuple{strLen(args[1]), iface{}}
+		},
+		"(*os.File).Close": func(fr *frame, args []value) value { return iface{} },
 		"math/rand.Seed":               extNop,
 		"(*math/rand.Rand).Seed":       extNop,
 		"math/rand.globalRand":         func(fr *frame, args []value) value { return (*value)(nil) },
@@ -730,6 +737,7 @@ func (ps *pathState) randIntn(n value, k types.BasicKind) value {
 	ps.nrand++
 	ps.addPC(ps.ts.And(ps.ts.BvCmp(OpBvSle, zero, r), ps.ts.BvCmp(OpBvSlt, r, tn)))
 	ps.randRanges = append(ps.randRanges, n)
+	ps.randVars = append(ps.randVars, r)
 	return mkval(k, r)
 }
 
@@ -1086,4 +1094,57 @@ func (ps *pathState) caseMap(v value, upper bool) value {
 		}
 	}
 	return normStr(out)
+}
+
+
+// pathWeight (probability mode): the weight of a path is the volume of the
+// product of the per-draw projections of its path condition (each projection
+// is a series of solver queries) divided by the product of the ranges.
+func (ps *pathState) pathWeight() (*big.Rat, string) {
+	s := ps.w.solver
+	ts := ps.ts
+	vol := big.NewRat(1, 1)
+	var inProj []*Term
+	for i, r := range ps.randVars {
+		kv, ok := ps.randRanges[i].(int)
+		if !ok {
+			if k64, ok2 := ps.randRanges[i].(int64); ok2 {
+				kv = int(k64)
+			} else if k32, ok3 := ps.randRanges[i].(int32); ok3 {
+				kv = int(k32)
+			} else {
+				return nil, "symbolic range of a random draw"
+			}
+		}
+		if kv > 64 {
+			return nil, "range of a random draw too large to enumerate"
+		}
+		w := int(r.sort.W)
+		cnt := 0
+		var alts []*Term
+		for v := 0; v < kv; v++ {
+			eq := ts.Eq(r, ts.BV(uint64(v), w))
+			res := s.Check(eq)
+			s.Pop()
+			switch res {
+			case "sat":
+				cnt++
+				alts = append(alts, eq)
+			case "unsat":
+			default:
+				return nil, "solver unknown while projecting a random draw"
+			}
+		}
+		if cnt == 0 {
+			return nil, "infeasible path"
+		}
+		inProj = append(inProj, ts.Or(alts...))
+		vol.Mul(vol, big.NewRat(int64(cnt), int64(kv)))
+	}
+	// box property: the product of the projections contains the path's solution
+	// set, so each weight is an upper bound; the check tool verifies that the
+	// weights of all paths add up to exactly 1, which holds only if every path's
+	// solution set IS the product of its projections
+	_ = inProj
+	return vol, ""
 }
